@@ -114,7 +114,9 @@ func listFuncKeys(root, sub string) ([]string, error) {
 }
 
 // listFuncLits: function key -> number of function literals in the body (summed over same-named keys).
-func listFuncLits(root, sub string) (map[string]int, error) {
+func listFuncLits(root, sub string) (map[string]int, error) { return listFuncLitsOv(root, sub, nil) }
+
+func listFuncLitsOv(root, sub string, overlay map[string][]byte) (map[string]int, error) {
 	keys := map[string]int{}
 	fset := token.NewFileSet()
 	err := filepath.Walk(filepath.Join(root, sub), func(p string, fi os.FileInfo, err error) error {
@@ -130,7 +132,11 @@ func listFuncLits(root, sub string) (map[string]int, error) {
 		if !strings.HasSuffix(p, ".go") || strings.HasSuffix(p, "_test.go") {
 			return nil
 		}
-		f, perr := parser.ParseFile(fset, p, nil, parser.SkipObjectResolution)
+		var osrc any
+		if b, ok := overlay[p]; ok {
+			osrc = b
+		}
+		f, perr := parser.ParseFile(fset, p, osrc, parser.SkipObjectResolution)
 		if perr != nil {
 			return nil // the typed load reports syntax errors
 		}
@@ -159,8 +165,8 @@ var forcedHelpers = []string{
 	"tars/util/conf|elem|addLine",
 }
 
-func newFuncKeys(repo string) map[string]bool {
-	out := newFuncKeys0(repo)
+func newFuncKeys(repo string, nameOv map[string][]byte) map[string]bool {
+	out := newFuncKeys0(repo, nameOv)
 	if out == nil {
 		return nil
 	}
@@ -170,12 +176,12 @@ func newFuncKeys(repo string) map[string]bool {
 	return out
 }
 
-func newFuncKeys0(repo string) map[string]bool {
+func newFuncKeys0(repo string, nameOv map[string][]byte) map[string]bool {
 	base := baselineSet()
 	if len(base) == 0 {
 		return nil
 	}
-	keys, err := listFuncLits(repo, "tars")
+	keys, err := listFuncLitsOv(repo, "tars", nameOv)
 	if err != nil {
 		return nil
 	}
@@ -999,24 +1005,35 @@ func (il *inliner) collectStmt(f *ilFile, s ast.Stmt, ret *retCtx, tail bool) []
 
 // buildOverlay returns file contents in which every call statement of a new helper (see the file
 // comment) is expanded. dir is the module directory to load, root the directory keys are relative to.
-func buildOverlay(dir, root string, newKeys map[string]bool, patterns ...string) (ov map[string][]byte, notes []string) {
+func buildOverlay(dir, root string, newKeys map[string]bool, base map[string][]byte, patterns ...string) (ov map[string][]byte, notes []string) {
 	if len(newKeys) == 0 {
-		return nil, nil
+		return base, nil
 	}
 	// the normalisation is a convenience: whatever goes wrong in it, the source as written is analysed
 	defer func() {
 		if p := recover(); p != nil {
-			ov, notes = nil, []string{fmt.Sprintf("helper normalisation abandoned (internal error: %v); analysing the source as written", p)}
+			ov, notes = base, []string{fmt.Sprintf("helper normalisation abandoned (internal error: %v); analysing the source as written", p)}
 		}
 	}()
-	return buildOverlay0(dir, root, newKeys, patterns...)
+	ov, notes = buildOverlay0(dir, root, newKeys, base, patterns...)
+	if len(base) > 0 {
+		merged := map[string][]byte{}
+		for k, v := range base {
+			merged[k] = v
+		}
+		for k, v := range ov {
+			merged[k] = v
+		}
+		ov = merged
+	}
+	return ov, notes
 }
 
-func buildOverlay0(dir, root string, newKeys map[string]bool, patterns ...string) (map[string][]byte, []string) {
+func buildOverlay0(dir, root string, newKeys map[string]bool, base map[string][]byte, patterns ...string) (map[string][]byte, []string) {
 	fset := token.NewFileSet()
 	cfg := &packages.Config{
 		Mode: packages.NeedName | packages.NeedFiles | packages.NeedCompiledGoFiles | packages.NeedSyntax | packages.NeedTypes | packages.NeedTypesInfo | packages.NeedImports | packages.NeedDeps,
-		Dir:  dir, Fset: fset,
+		Dir:  dir, Fset: fset, Overlay: base,
 		Env: append(os.Environ(), "GOFLAGS=-mod=mod", "GOPROXY=off", "GOSUMDB=off", "GOTOOLCHAIN=local", "GOWORK=off",
 			"GOOS=linux", "GOARCH=amd64", "CGO_ENABLED=0"),
 	}
@@ -1043,6 +1060,9 @@ func buildOverlay0(dir, root string, newKeys map[string]bool, patterns ...string
 			}
 			name := p.CompiledGoFiles[i]
 			src, err := os.ReadFile(name)
+			if b, ok := base[name]; ok {
+				src, err = b, nil
+			}
 			if err != nil {
 				continue
 			}
